@@ -717,6 +717,11 @@ func VisitWithTypeInfo(ttypeInfo typeInfo.TypeInfoI, visitorOpts *VisitorOptions
 				fn := GetVisitFn(visitorOpts, node.GetKind(), false)
 				if fn != nil {
 					action, result := fn(p)
+					if action == ActionSkip {
+						// a skipped node gets no leave call from the traversal:
+						// undo what Enter recorded for it
+						ttypeInfo.Leave(node)
+					}
 					if action == ActionUpdate {
 						ttypeInfo.Leave(node)
 						if isNode(result) {
